@@ -630,7 +630,7 @@ def kfifo(ctx):
             ctx.broken.append("in_valid_region: expected three parameters")
             continue
         names = [p_["name"] for p_ in fn.params]
-        N = 6
+        N = 6 if ctx.tier != "thorough" else 10
         bad = None
         try:
             for to in range(N):
@@ -676,7 +676,7 @@ def kfifo(ctx):
             bounded = "bounded" in C
             bad = None
             try:
-                for k in (1, 2, 3, 5):
+                for k in ((1, 2, 3, 5) if ctx.tier != "thorough" else range(1, 12)):
                     segs = 3
                     for r in range(k):
                         for start in ([0] if not bounded else [0, k, 2 * k]):
